@@ -226,6 +226,56 @@ func runC09(c *Ctx) {
 		R.Ob("(*Client).Auth/loop ends on a nil response", c.P.Pos(f.Pos()), nilTest, "no nil test of the mechanism's response inside the exchange loop")
 	}
 
+	R.Rule("R-cauth-initial-empty", "E4 + edge facts", "an empty but non-nil initial response from the mechanism is sent as \"=\" with the AUTH command (RFC 4954); only a nil one is left out", 1)
+	if f := c.A.Func("(*Client).Auth"); f != nil {
+		ff := c.F.Analyze(f)
+		found, wrong := false, ""
+		pos := c.P.Pos(f.Pos())
+		allInstrs(f, func(in ssa.Instruction) {
+			phi, ok := in.(*ssa.Phi)
+			if !ok || phi.Type().String() != "[]byte" {
+				return
+			}
+			for i, e := range phi.Edges {
+				p := phi.Block().Preds[i]
+				facts := ff.edgeOut(p, phi.Block())
+				if !facts["invoke:Client.Start#1 != nil"] || !(facts["builtin:len(invoke:Client.Start#1) == 0"] || facts["builtin:len(invoke:Client.Start#1) <= 0"]) {
+					continue
+				}
+				// the value on this edge must be the one-octet literal "="
+				isEq := false
+				if sl, isSl := stripConv(e).(*ssa.Slice); isSl {
+					if a, isA := sl.X.(*ssa.Alloc); isA {
+						cnt, eq := 0, false
+						for _, ref := range *a.Referrers() {
+							if ia, isIA := ref.(*ssa.IndexAddr); isIA {
+								for _, r2 := range *ia.Referrers() {
+									if st, isSt := r2.(*ssa.Store); isSt {
+										cnt++
+										if k, okK := constInt(st.Val); okK && k == '=' {
+											eq = true
+										}
+									}
+								}
+							}
+						}
+						isEq = cnt == 1 && eq
+					}
+				}
+				if k, okS := constString(e); okS && k == "=" {
+					isEq = true
+				}
+				if isEq {
+					found = true
+					pos = c.P.InstrPos(phi)
+				} else {
+					wrong = describe(e)
+				}
+			}
+		})
+		R.Ob("(*Client).Auth/empty non-nil initial response is sent as \"=\"", pos, found && wrong == "", "no branch for \"the mechanism's initial response is empty but not nil\" puts \"=\" on the AUTH line (it carries "+wrong+"): the server then asks for the response with an empty challenge and the mechanism sees one step too many")
+	}
+
 	R.Rule("R-cauth-cancel", "E2", "a mechanism error, an undecodable challenge or an unexpected reply inside the exchange is followed by the '*' cancel command on every path before Auth returns", 2)
 	if f := c.A.Func("(*Client).Auth"); f != nil {
 		for _, site := range s.Find(f, "cb:sasl.Client.Next") {
